@@ -925,3 +925,95 @@ Proof.
   - unfold urllines. rewrite splitlines_unlines by exact NB. rewrite !map_map. apply map_ext. intros x.
     now rewrite strip_idem, strip_nl.
 Qed.
+
+(* ================================================================================================ *)
+(* 8. the declared type derived from a path / URL                                                   *)
+(* ================================================================================================ *)
+Lemma has_char_app c a b : has_char c (a ++ b) = has_char c a || has_char c b.
+Proof. apply existsb_app. Qed.
+
+Lemma has_char_rev c a : has_char c (rev a) = has_char c a.
+Proof.
+  unfold has_char. destruct (existsb (N.eqb c) a) eqn:E.
+  - apply existsb_exists in E as [x [Hx Ex]]. apply existsb_exists. exists x. split; [now apply in_rev in Hx|exact Ex].
+  - destruct (existsb (N.eqb c) (rev a)) eqn:F; [|reflexivity].
+    apply existsb_exists in F as [x [Hx Ex]]. apply in_rev in Hx.
+    assert (existsb (N.eqb c) a = true) by (apply existsb_exists; now exists x). congruence.
+Qed.
+
+Lemma take_until_stop c a b : has_char c a = false -> take_until c (a ++ c :: b) = a.
+Proof.
+  induction a as [|x r IH]; intros H; cbn [app take_until].
+  - now rewrite N.eqb_refl.
+  - cbn [has_char existsb] in H. apply orb_false_iff in H as [H1 H2]. rewrite N.eqb_sym in H1. rewrite H1.
+    f_equal. now apply IH.
+Qed.
+
+Lemma take_until_all c a : has_char c a = false -> take_until c a = a.
+Proof.
+  induction a as [|x r IH]; intros H; [reflexivity|]. cbn [take_until].
+  cbn [has_char existsb] in H. apply orb_false_iff in H as [H1 H2]. rewrite N.eqb_sym in H1. rewrite H1.
+  f_equal. now apply IH.
+Qed.
+
+Lemma after_last_stop c x e : has_char c e = false -> after_last c (x ++ c :: e) = e.
+Proof.
+  intros H. unfold after_last. rewrite rev_app_distr. cbn [rev]. rewrite <- app_assoc. cbn [app].
+  rewrite take_until_stop by (now rewrite has_char_rev). apply rev_involutive.
+Qed.
+
+Lemma after_last_all c s : has_char c s = false -> after_last c s = s.
+Proof. intros H. unfold after_last. rewrite take_until_all by (now rewrite has_char_rev). apply rev_involutive. Qed.
+
+Lemma firstn_exact {T} (a b : list T) : firstn (List.length a) (a ++ b) = a.
+Proof. induction a as [|x r IH]; [reflexivity|]. cbn. now rewrite IH. Qed.
+
+(* a path  dir/stem.ext  (dir empty or ending in "/"; no "/" in stem and ext, no "." in ext, stem not made of dots
+   only - so NOT ".soc" or "...soc") has the declared type ext for parse_file / get_parsed_instance (os.path.splitext)
+   and for parse_url (url.split(".")[-1]), whatever precedes the path in the URL and however many dots the stem or
+   the directories contain *)
+Theorem declared_type_proof pre d stem e :
+  (d = [] \/ exists d', d = d' ++ [47%N]) ->
+  has_char 47 stem = false -> has_char 47 e = false -> has_char 46 e = false ->
+  forallb (N.eqb 46) stem = false ->
+  splitext_ext (d ++ stem ++ 46%N :: e) = e /\ url_ext (pre ++ d ++ stem ++ 46%N :: e) = e.
+Proof.
+  intros Hd Hs He1 He2 Hst. split.
+  - unfold splitext_ext.
+    assert (B : after_last 47 (d ++ stem ++ 46%N :: e) = stem ++ 46%N :: e).
+    { assert (N47 : has_char 47 (stem ++ 46%N :: e) = false).
+      { rewrite has_char_app, Hs. cbn [has_char existsb orb]. exact He1. }
+      destruct Hd as [->|[d' ->]].
+      - now apply after_last_all.
+      - rewrite <- app_assoc. cbn [app]. now apply after_last_stop. }
+    rewrite B.
+    assert (D : has_char 46 (stem ++ 46%N :: e) = true).
+    { rewrite has_char_app. cbn [has_char existsb]. rewrite N.eqb_refl. now rewrite orb_true_r. }
+    rewrite D. rewrite (after_last_stop 46 stem e He2).
+    replace (List.length (stem ++ 46%N :: e) - S (List.length e))%nat with (List.length stem)
+      by (rewrite app_length; cbn [List.length]; lia).
+    rewrite firstn_exact. now rewrite Hst.
+  - unfold url_ext. rewrite !app_assoc. now apply after_last_stop.
+Qed.
+
+(* the two derivations differ on the unchanged tree when only dots precede the last dot of the base name *)
+Example declared_type_hidden :
+  splitext_ext (lit "/d/.soc") = [] /\ url_ext (lit "file:///d/.soc") = lit "soc" /\
+  splitext_ext (lit "/d/...soc") = [] /\ url_ext (lit "file:///d/...soc") = lit "soc" /\
+  splitext_ext (lit "/dir.v1/inst") = [] /\ url_ext (lit "file:///dir.v1/inst") = lit "v1/inst" /\
+  splitext_ext (lit "/dir.v1/00002-00000001.v2.soi") = lit "soi" /\ url_ext (lit "file:///dir.v1/00002-00000001.v2.soi") = lit "soi" /\
+  splitext_ext (lit "/d/x..wmd") = lit "wmd" /\ url_ext (lit "file:///d/x..wmd") = lit "wmd".
+Proof. repeat split; vm_compute; reflexivity. Qed.
+
+Theorem paths_proof c pre d stem e f t :
+  (d = [] \/ exists d', d = d' ++ [47%N]) ->
+  has_char 47 stem = false -> has_char 47 e = false -> has_char 46 e = false ->
+  forallb (N.eqb 46) stem = false ->
+  let p := d ++ stem ++ 46%N :: e in
+  parse_file_path c p f t = parse_file_model c e f t /\
+  parse_url_url c (pre ++ p) f t = parse_url_model c e f t /\
+  get_parsed_instance_path p f t = get_parsed_instance_model e f t.
+Proof.
+  intros Hd Hs He1 He2 Hst p. destruct (declared_type_proof pre d stem e Hd Hs He1 He2 Hst) as [A B].
+  unfold parse_file_path, parse_url_url, get_parsed_instance_path. subst p. now rewrite A, B.
+Qed.
